@@ -1,11 +1,15 @@
 From Coq Require Import ZArith List Bool.
-From UDS Require Import Lib.Bytes Model.Entry Model.Names Model.Helpers Model.History Model.Ecu Model.Conn.
+From UDS Require Import Lib.Bytes Lib.ErrM Model.Message Model.Client Model.Entry Model.Names Model.Helpers Model.Svc_Simple Model.History Model.Ecu Model.Conn.
 Import ListNotations.
 Open Scope Z_scope.
 
 Definition run_case (e : Z) (a : list Z) (b : list bytes) : list Z :=
   if (1700 <=? e) && (e <? 1800) then entry_message e a b
   else if (2000 <=? e) && (e <? 2100) then entry_names e a
+  else if e =? 1911 then
+    (* services.LinkControl.make_request(control_type, Baudrate(rate, type)) called directly: the payload of the request built *)
+    enc_M enc_bytes (bind (bind (if nth 1 a 0 =? 1 then bind (mk_baud (nth 2 a 0) (nth 3 a 0)) (fun x => ret (Some x)) else ret None) (lc_make (nth 0 a 0)))
+                          (fun rq => request_payload rq None))
   else if (1900 <=? e) && (e <? 2000) then entry_helpers e a
   else if e =? 5000 then entry_history a b
   else if (1600 <=? e) && (e <? 1610) then entry_conn e a b
